@@ -97,6 +97,10 @@ def rules(sink):
             (r'context\.shouldStripSourceNode\(text\)', 'xv_shouldStrip(executionContext, text)', (0, 1)),
             (r'data\.append\(text\.getData\(\)\);', 'xv_emit_text(text, SINK_S);', (0, 1)),
             (r'sendData\(formatterListener, function, text\.getData\(\)\);', 'xv_emit_text(text, SINK_L);', (0, 1)),
+            # data of a text node reached some other way (a cast child): the same stub, so the strip-check precondition applies
+            (r'sendData\(\s*formatterListener,\s*function,\s*static_cast<const XalanText\*>\((\w+)\)->getData\(\)\);', r'xv_emit_text(\1, SINK_L);', (0, 2)),
+            (r'data\.append\(static_cast<const XalanText\*>\((\w+)\)->getData\(\)\);', r'xv_emit_text(\1, SINK_S);', (0, 2)),
+            (r'\b(the\w+)(?:\.|->)getNodeType\(\)', r'xv_node_type(\1)', (0, 2)),
             (r'\b(node|child)(?:\.|->)getNodeType\(\)', r'xv_node_type(\1)', (0, 1)),
             (r'\b(\w+)(?:\.|->)getNextSibling\(\)', r'xv_next_sibling(\1)', (0, 1)),
             (r'\b(\w+)(?:\.|->)getFirstChild\(\)', r'xv_first_child(\1)', (0, 1))]
